@@ -4,22 +4,21 @@ from vlib import std, hbuild
 
 PID = "C41"
 META = {
-    "text": "Theorems (Properties_C41.v, closed under the global context) over the Gallina models of include/splay.h "
+    "text": "Theorems (Properties_C41.v, 23, closed under the global context) over the Gallina models of include/splay.h "
             "(SplayModel.v: top-down splay(), find, insert, remove), matchDomainName (src/anyp/Uri.cc) and "
             "ACLDomainData::parse/match + Acl::SplayInserter<char*>::Compare/IsSubset/Merge (src/acl): for EVERY list of "
-            "well-formed domain values (a non-empty name not starting with '.', optionally preceded by one '.'), in any order, "
-            "with duplicates and overlaps, parse() ends normally and match(host) is true exactly when some value matches the "
-            "host case-insensitively ('.x' matches x and every name ending in '.x', any other value only itself). The "
-            "statement for arbitrary values is refuted by a witness (values '..a','a'), which is a finding about the real "
-            "code. The splay library theorems (in-order preservation of splay/insert/remove, find succeeds iff a stored "
-            "element compares equal under a sign-monotone comparator) are shared with later properties. The model is tied to "
-            "the code by the regenerated xtolower table and by differential runs of the extracted model against the real "
-            "ACLDomainData/Splay/matchDomainName compiled from the working tree (ASan+UBSan), comparing exact tree shapes.",
+            "non-empty tokens, in any order, with duplicates, overlaps and any letter case, parse() ends normally (Merge never "
+            "frees a stored value, never reaches MakeCombinedValue) and match(host) is true exactly when some token matches the "
+            "host, a token standing for its value with redundant leading dots skipped ('.x' matches x and every name ending in "
+            "'.x', any other value only itself). The splay library theorems (in-order preservation of splay/insert/remove, "
+            "find succeeds iff a stored element compares equal under a sign-monotone comparator) are shared with later "
+            "properties. The model is tied to the code by the regenerated xtolower table and by differential runs of the "
+            "extracted model against the real ACLDomainData/Splay/matchDomainName compiled from the working tree "
+            "(ASan+UBSan), comparing exact tree shapes.",
     "note": "Trusted: Coq kernel, extraction, gen/gen_acldom.cc, harness/h_acldom.cc (it supplies ConfigParser::strtokFile "
             "tokens to the real ACLDomainData::parse()); the hand-written models are validated against the code on the "
-            "generated cases only. Values with two or more leading dots are outside the proved theorem (known finding "
-            "C41-multidot-value: lost values and a use-after-free in Merge()); the value '.' is outside the proved theorem "
-            "but inside the oracle.",
+            "generated cases only. Preconditions of the main theorem: tokens are non-empty NUL-free strings (what the "
+            "configuration parser yields); leading dots of the looked-up name are ignored (the code strips them).",
     "technique": "Coq proof (structural induction over the splay loop with link contexts, sorted-disjoint interval invariant "
                  "under a lexicographic key order, fuel-bounded Merge loop shown to terminate) + extracted-model "
                  "differential correspondence with exact tree shapes + independent Python oracle",
@@ -52,7 +51,7 @@ def unhx(h):
 
 
 # ---------------------------------------------------------------- the property, stated independently
-def value_matches(value, host):
+def value_matches_raw(value, host):
     """C41: a value beginning with a dot matches that domain and all its subdomains, any other value matches
     only itself; case-insensitively. Leading dots of the looked-up name are not part of a host name."""
     v = value.lower()
@@ -62,6 +61,18 @@ def value_matches(value, host):
     if v.startswith(b"."):
         return h == v[1:] or h.endswith(v)
     return h == v
+
+
+def value_matches(value, host):
+    """what a configured token matches: its value with redundant leading dots skipped"""
+    return value_matches_raw(normalise(value.lower()), host)
+
+
+def normalise(v):
+    """redundant leading dots of a configured value are skipped: '..x' stands for '.x'"""
+    while v.startswith(b".."):
+        v = v[1:]
+    return v
 
 
 def root(v):
@@ -126,8 +137,7 @@ def oracle(case, out):
     try:
         if op == "acl":
             vals, hosts = split_acl(case)
-            md = any(multidot(v.lower()) for v in vals)
-            tag = "oracle:multidot-value:" if md else "oracle:acl:"
+            tag = "oracle:acl:"
             if out.startswith(("CRASH", "EXC", "ERR", "HANG", "UB")):
                 return (tag + "parse-fails", "building the ACL from %r crashes / throws / does not terminate / frees a stored value: %s"
                         % ([v.decode("latin1") for v in vals], out[:160]))
@@ -152,7 +162,7 @@ def oracle(case, out):
                 return ("oracle:mdn:crash", out[:160])
             if not d:
                 return None
-            exp = value_matches(d, h)
+            exp = value_matches_raw(d, h)     # the bare comparison does not normalise
             if (int(out) == 0) != exp:
                 return ("oracle:mdn:zero", "matchDomainName(%r, %r) = %s but the value %s the host" % (h, d, out, "matches" if exp else "does not match"))
             return None
@@ -160,9 +170,8 @@ def oracle(case, out):
             x, y = unhx(a[1]), unhx(a[2])
             if out.startswith(("CRASH", "EXC", "ERR", "HANG")):
                 return ("oracle:%s:crash" % op, out[:160])
-            md = multidot(x) or multidot(y)
             if not (wellformed(x) and wellformed(y)):
-                return None          # precondition of the insertion rules; multi-dot values are exercised through `acl`
+                return None          # precondition of the insertion rules (parse() only passes normalised values)
             if op == "cmp":
                 if (int(out) == 0) != overlap(x, y):
                     return ("oracle:cmp:overlap", "Compare(%r, %r) = %s but the matched sets %s" % (x, y, out, "overlap" if overlap(x, y) else "are disjoint"))
@@ -208,6 +217,7 @@ def strings(alpha, maxlen):
 
 
 def acl_case(vals, hosts):
+    vals = [v for v in vals if v] or [b"a"]        # the configuration parser never yields an empty token
     return "acl %d %s" % (len(vals), " ".join([hx(v) for v in vals] + [hx(h) for h in hosts]))
 
 
@@ -270,23 +280,23 @@ def gen_cases(rng, n):
     # (1) small scope, exhaustively: every ordered list (all insertion orders, duplicates included) of up to 3
     #     well-formed values of length <= 2 over {a,b,-,.}, probed with every host of length <= 3
     alpha = SMALL if not thorough else b"ab-._0"
-    uni = [v for v in strings(alpha, 2) if wellformed(v)] + [b"."]
+    uni = strings(alpha, 2)            # includes ".", ".." and ".x"
     hosts = [h for h in strings(SMALL, 3) if not h.startswith(b".")]
     small = []
     for k in (1, 2, 3):
         for t in itertools.product(uni, repeat=k):
             small.append(acl_case(list(t), hosts))
-    budget = max(n // 2, 1)
+    budget = max(n * 3 // 8, 1)
     if len(small) > budget:
         small = rng.sample(small, budget)
     cases += small
     # (2) all orders of sets of 4 and 5 related values of length <= 3
-    uni3 = [v for v in strings(SMALL, 3) if wellformed(v)]
+    uni3 = strings(SMALL, 3)
     for _ in range(n // 40):
         base = [rng.choice(uni3)]
         while len(base) < rng.choice([4, 4, 5]):
             c = derive(rng, rng.choice(base)) if rng.random() < 0.7 else rng.choice(uni3)
-            if wellformed(c) and len(c) <= 6:
+            if len(c) <= 6:
                 base.append(c)
         hs = rand_hosts(rng, base, 12) + rng.sample(hosts, 6)
         perms = list(itertools.permutations(base))
@@ -307,10 +317,8 @@ def gen_cases(rng, n):
             x, y = x.lower(), y.lower()       # stored values are lower-cased by parse()
         cases.append("%s %s %s" % (op, hx(x), hx(y)))
     # (4) larger random lists
-    while len(cases) < n - n // 20 - 40:
-        vals = [v for v in rand_values(rng, rng.choice([3, 6, 10, 16])) if not multidot(v)]
-        if not vals:
-            continue
+    while len(cases) < n - n // 20 - n // 25:
+        vals = rand_values(rng, rng.choice([3, 6, 10, 16]))
         cases.append(acl_case(vals, rand_hosts(rng, vals, rng.choice([4, 8, 16]))))
     # (5) the shared splay model under a second comparator: Splay<int>
     for _ in range(n // 20):
@@ -319,11 +327,11 @@ def gen_cases(rng, n):
         for _ in range(rng.randrange(1, 40)):
             ops.append(rng.choice("iiirf") + str(rng.randrange(-span, span)))
         cases.append("spl " + ",".join(ops))
-    # (6) a few lists with values starting with two dots (known finding C41-multidot-value)
-    for _ in range(40):
+    # (6) lists with values starting with two or more dots (finding C41-multidot-value, repaired in /repo by 0f064b1)
+    for _ in range(n // 25):
         vals = rand_values(rng, 4)
         i = rng.randrange(len(vals))
-        vals[i] = b"." + (vals[i] if vals[i].startswith(b".") else b"." + vals[i])
+        vals[i] = b"." * rng.choice([1, 1, 2]) + (vals[i] if vals[i].startswith(b".") else b"." + vals[i])
         cases.append(acl_case(vals, rand_hosts(rng, vals, 6)))
     return cases
 
@@ -368,7 +376,7 @@ def mutate(rng, case):
             vals.insert(rng.randrange(len(vals) + 1), derive(rng, rng.choice(vals)))
         else:
             hosts = hosts + rand_hosts(rng, vals, 4)
-        vals = [v for v in vals if v and not multidot(v.lower())] or [b"a"]
+        vals = [v for v in vals if v] or [b"a"]
         return acl_case(vals, hosts)
     if a[0] in ("mdn", "cmp", "sub"):
         i = rng.choice([1, 2])
@@ -391,14 +399,14 @@ def norm_model(line):
 
 
 def run(res, tier):
-    res.rule = ("every ordered list (<= 3 values, duplicates included) of well-formed values of length <= 2 over {a,b,-,.} x every "
+    res.rule = ("ordered lists (<= 3 values, duplicates included; sampled down to 3/8 of the case budget) of ALL values of length <= 2 over {a,b,-,.} x every "
                 "host of length <= 3; all/sampled insertion orders of related 4-5 value sets; random lists of up to 16 related "
                 "names (sub-domains, parents, glued prefixes, mixed case) with derived hosts; matchDomainName/Compare/IsSubset "
                 "on pairs; Splay<int> operation sequences. An acl case is non-trivial when it has >= 2 values and both "
                 "matching and non-matching hosts")
     std.run_standard(res, PID, tier, area="acldom", build_impl=impl, gen_cases=gen_cases, oracle=oracle,
                      corr_name="AcldomModel/SplayModel vs src/acl/DomainData.cc, src/acl/SplayInserter.h, src/anyp/Uri.cc, include/splay.h",
-                     gens=["acldom"], n_quick=14000, n_thorough=150000, seed_salt=41, mutate=mutate,
+                     gens=["acldom"], n_quick=9000, n_thorough=150000, seed_salt=41, mutate=mutate,
                      kind_fn=kind_fn, nontrivial_fn=nontrivial, norm_impl=norm_impl, norm_model=norm_model,
                      impl_env={"ASAN_OPTIONS": "detect_leaks=0:abort_on_error=0:symbolize=0",
                                "UBSAN_OPTIONS": "print_stacktrace=0:halt_on_error=1:symbolize=0"})
